@@ -79,3 +79,18 @@ func VerifState(ch Channel) VerifChanState {
 	c := ch.(*channel)
 	return VerifChanState{len(c.writeQueue), cap(c.writeQueue), atomic.LoadInt32(&c.running) != 0, atomic.LoadInt32(&c.closed) != 0, c.ctx.Err() != nil}
 }
+
+// vpWait parks (under a scheduler) until the signal channel has been closed,
+// so that serveChannel's blocking receive never stalls the cooperative scheduler.
+func (c *channel) vpWait(point string, signal chan struct{}) {
+	if s := verifSched; s != nil {
+		s.Yield(point, func() bool {
+			select {
+			case <-signal:
+				return true
+			default:
+				return false
+			}
+		})
+	}
+}
